@@ -573,6 +573,39 @@ func checkEntries(r *Run, rc *RuleCtx, cl *closures) {
 			rc.Violation(fn, fn.Pos(), "no Decode call", "the entry point never decodes what it stored")
 			continue
 		}
+		// what is decoded is exactly the data: the Raw store that reaches the Decode call is
+		// append(<empty>, data...) (or a reslice to the data's length)
+		for _, dc := range dcalls {
+			if dc.Call.StaticCallee() != cl.DecodeM || (len(dataParams) == 0 && fn.Name() != "CloneTo") {
+				continue
+			}
+			var best *ssa.Store
+			for _, a := range fieldAccesses(fn, rawField) {
+				if st, ok := a.Instr.(*ssa.Store); ok && a.Kind == "store" && instrDominates(st, dc) {
+					if best == nil || instrDominates(best, st) {
+						best = st
+					}
+				}
+			}
+			if best == nil {
+				rc.Violation(fn, instrPos(dc), "no store of the copy before Decode", "the buffer handed to Decode is not established to hold exactly the data (bytes of the previous message behind the copy would be decoded as part of this one)")
+				continue
+			}
+			if !exactCopyValue(best.Val, 0) {
+				rc.Violation(fn, instrPos(best), "Raw = "+exprDepth(best.Val, 0), "the stored buffer is not append(<empty>, data...): its length is not established to equal the data's length")
+			}
+			eachInstr(fn, func(b *ssa.BasicBlock, i int, in ssa.Instruction) {
+				if ci, ok := in.(ssa.CallInstruction); ok && in != ssa.Instruction(dc) && instrDominates(best, in) && instrDominates(in, dc) {
+					if _, isB := ci.Common().Value.(*ssa.Builtin); isB {
+						return
+					}
+					if sc := ci.Common().StaticCallee(); sc != nil && !p.isLibFn(sc) {
+						return
+					}
+					rc.Violation(fn, instrPos(in), "call between the copy and Decode", "the copied buffer may be resized before it is decoded (undecided)")
+				}
+			})
+		}
 		idx := errorResultIndex(fn)
 		if idx < 0 {
 			continue
@@ -599,6 +632,54 @@ func checkEntries(r *Run, rc *RuleCtx, cl *closures) {
 		}
 		q.Run()
 	}
+}
+
+// exactCopyValue: v is append(z, src...) with len(z) == 0, i.e. a buffer holding exactly src.
+func exactCopyValue(v ssa.Value, depth int) bool {
+	if depth > 6 {
+		return false
+	}
+	switch x := v.(type) {
+	case *ssa.Call:
+		if isBuiltinCall(x, "append") && len(x.Call.Args) == 2 {
+			return zeroLenValue(x.Call.Args[0], depth+1)
+		}
+	case *ssa.ChangeType:
+		return exactCopyValue(x.X, depth+1)
+	case *ssa.Phi:
+		for _, e := range x.Edges {
+			if !exactCopyValue(e, depth+1) {
+				return false
+			}
+		}
+		return len(x.Edges) > 0
+	}
+	return false
+}
+
+func zeroLenValue(v ssa.Value, depth int) bool {
+	if depth > 6 {
+		return false
+	}
+	switch x := v.(type) {
+	case *ssa.Const:
+		return x.Value == nil
+	case *ssa.Slice:
+		if x.High != nil {
+			if c, ok := constInt(x.High); ok && c == 0 {
+				return true
+			}
+		}
+	case *ssa.ChangeType:
+		return zeroLenValue(x.X, depth+1)
+	case *ssa.UnOp:
+		if x.Op == token.MUL && callerProg != nil {
+			if st := reachingFieldStore(callerProg, x); st != nil {
+				return zeroLenValue(st.Val, depth+1)
+			}
+		}
+	}
+	return false
 }
 
 // rawLoadAlias: v aliases a load of field Raw of an object other than dstBase.
